@@ -77,7 +77,18 @@ class Cfg:
                 f.export(p)
                 g = cls.load_error_rate(self.error_rate, p, **kw)
         elif channel == "bytes":
-            g = cls.frombytes(bytes(f), **kw)
+            # every third time the image is handed over as a bytearray / memoryview; a loader that REFUSES such a buffer (TypeError) is
+            # within its rights - the plain bytes are used then - but one that accepts it must load the same table
+            self._n_reload = getattr(self, "_n_reload", 0) + 1
+            data = bytes(f)
+            g = None
+            if self._n_reload % 3 == 0:
+                try:
+                    g = cls.frombytes(memoryview(data) if self._n_reload % 2 else bytearray(data), **kw)
+                except TypeError:
+                    g = None
+            if g is None:
+                g = cls.frombytes(data, **kw)
         else:
             p = scratch.path("ck")
             f.export(p)
